@@ -26,7 +26,7 @@
          does not exist; `M 100644 b p` replaces whatever was at or below p and turns a blob that is
          a proper prefix of p into a directory. *)
 From Coq Require Import PeanoNat.
-From Verif Require Import Base.Str.
+From Verif Require Import Base.Str Gen.GenNotes.
 
 Definition path := list str.
 Definition blob := N.
@@ -91,14 +91,33 @@ Fixpoint dedup_last (es : list (str * blob)) : list (str * blob) :=
               else e :: dedup_last r
   end.
 
-Definition write_one (t : tree) (e : str * blob) : tree :=
-  let fan := fanout_path (fst e) in
-  let flat := [fst e] in
-  let t1 := if path_eqb flat fan then t else fi_delete flat t in
-  fi_modify fan (snd e) (fi_delete fan t1).
+(* deep_fanout_note_paths_for_object: <aa>/<bb>/<rest>, <aa>/<bb>/<cc>/<rest>, ... as components;
+   split_dirs d s = d two-character directories followed by the rest *)
+Fixpoint split_dirs (d : nat) (s : str) : path :=
+  match d with
+  | O => [s]
+  | S d' => firstn 2 s :: split_dirs d' (skipn 2 s)
+  end.
 
-Definition batch_write (t : tree) (es : list (str * blob)) : tree :=
-  fold_left write_one (dedup_last es) t.
+(* dirs = 2, 3, ... while oid.len() > dirs * 2 *)
+Definition deep_paths (sha : str) : list path :=
+  map (fun d => split_dirs d sha) (seq 2 (Nat.div (length sha - 1) 2 - 1)).
+
+(* the D commands of one entry.  all = GenNotes.gn_all_layouts: the deeper fan-out forms are deleted
+   (and probed by the lookup) as well; false = the code before that repair *)
+Definition delete_paths (all : bool) (sha : str) : list path :=
+  (if path_eqb [sha] (fanout_path sha) then [] else [[sha]]) ++ [fanout_path sha]
+  ++ (if all then deep_paths sha else []).
+
+Definition write_one_with (all : bool) (t : tree) (e : str * blob) : tree :=
+  fi_modify (fanout_path (fst e)) (snd e)
+            (fold_left (fun t' p => fi_delete p t') (delete_paths all (fst e)) t).
+
+Definition batch_write_with (all : bool) (t : tree) (es : list (str * blob)) : tree :=
+  fold_left (write_one_with all) (dedup_last es) t.
+
+Definition write_one := write_one_with gn_all_layouts.
+Definition batch_write := batch_write_with gn_all_layouts.
 
 (* ---------- note_blob_oids_for_commits ---------- *)
 Definition find_blob (t : tree) (p : path) : option blob :=
@@ -107,11 +126,19 @@ Definition find_blob (t : tree) (p : path) : option blob :=
   | None => None
   end.
 
-Definition lookup (t : tree) (sha : str) : option blob :=
-  match find_blob t [sha] with
-  | Some b => Some b
-  | None => find_blob t (fanout_path sha)
+Fixpoint first_blob (t : tree) (ps : list path) : option blob :=
+  match ps with
+  | [] => None
+  | p :: r => match find_blob t p with Some b => Some b | None => first_blob t r end
   end.
+
+Definition probe_paths (all : bool) (sha : str) : list path :=
+  [sha] :: fanout_path sha :: (if all then deep_paths sha else []).
+
+Definition lookup_with (all : bool) (t : tree) (sha : str) : option blob :=
+  first_blob t (probe_paths all sha).
+
+Definition lookup := lookup_with gn_all_layouts.
 
 (* ---------- git's own reader (G1, G2) ---------- *)
 Definition is_nil {A} (l : list A) : bool := match l with [] => true | _ => false end.
@@ -147,11 +174,22 @@ Definition path_le1 (p : path) : bool :=
 
 Definition layout_le1 (t : tree) : bool := forallb (fun e => path_le1 (fst e)) t.
 
+(* any layout git's reader accepts: two-character directories, a non-empty last component *)
+Definition path_ok (p : path) : bool :=
+  match p with
+  | [] => false
+  | [_] => true
+  | _ => git_path_ok p && negb (is_nil (last p []))
+  end.
+
+Definition layout_ok (t : tree) : bool := forallb (fun e => path_ok (fst e)) t.
+
 (* every annotated object name is longer than a fan-out directory name (true of hex object ids) *)
 Definition long_keys (t : tree) : bool := forallb (fun e => (2 <? length (key (fst e)))%nat) t.
 
-(* known class: some note sits deeper than one fan-out level (git does this on its own once the
-   notes ref holds some 65 000 notes; also any tree written by another tool) *)
+(* the class of trees on which the code before the repair (gn_all_layouts = false) went wrong: some
+   note sits deeper than one fan-out level (git does this on its own once the notes ref holds some
+   65 000 notes) *)
 Definition Known_C05_fanout (t : tree) : bool := negb (layout_le1 t).
 
 (* ---------- witnesses ---------- *)
